@@ -29,7 +29,11 @@ RULE = ("every tree of U(n) (all rooted shapes on n labelled leaves, n up to the
         "(one chain of 1 or 2 above any node incl. leaves and the root, or two single ones above any two nodes; every child "
         "order up to 4 leaves, as-generated and reversed above; every survivor subset x suppress {T,F}; each extraction "
         "result compared with the reference AND with prune_taxa / retain_taxa run in place on a fresh copy), and "
-        "Node.extract_subtree started at every inner node; plus a layer that is exhaustive only over a STATED FINITE SET "
+        "Node.extract_subtree started at every inner node; namespaces in which one label names several Taxon objects "
+        "(two taxa with identical labels, or 'a'/'A' with is_case_sensitive False and True; both on the tree, or one of them "
+        "only in the namespace, before or after the others) x every non-empty subset of the distinct labels x the four "
+        "*_labels APIs x suppress {T,F}, each against the induced subtree on the leaves whose label matches under the "
+        "namespace's case rule, with prune == retain-complement and (where the rule is unambiguous) extraction == in-place; plus a layer that is exhaustive only over a STATED FINITE SET "
         "of 18 large representatives (left/right ladders with 12, 17, 33, 40, 65 tips, balanced trees with 16, 32, 64 leaves, "
         "stars with 12, 33, 40, 100 tips, a broom of a 20-ladder ending in a 40-star; labels t000..tNNN; unit and 1-2-3 "
         "lengths) x 10 named survivor sets x all twelve APIs x suppress {T,F} x update_bipartitions {F,T} with the same "
@@ -41,6 +45,10 @@ ASSUMPTIONS = [
     "keeps its taxon and label, with lengths added, None + x = x, None + None = None; a root left with one child is replaced by it)",
     "the nodes 'reported as removed' are the nodes whose restriction is empty; nodes spliced out by unifurcation suppression "
     "are suppressed, not removed, and are not expected in the returned list",
+    "labels layer: prune/retain_taxa_with_labels mean 'every Taxon of the namespace whose label matches under the namespace's "
+    "is_case_sensitive rule'; extract_tree_with(out)_taxa_labels say 'labels matching those listed' without a case rule, so "
+    "for them exact matching and the namespace rule are both accepted and agreement with the in-place calls is demanded only "
+    "where the two coincide (the unchanged library matches exactly there - reported to the lead as an observation, not a finding)",
     "a taxa / labels argument documented as 'any iterable' may be a list, tuple, set, frozenset, dict view, TaxonNamespace, "
     "iterator or generator",
     "where the source already has out-degree-one nodes: with suppression requested and at least one leaf excluded every "
@@ -92,13 +100,17 @@ def bounds(tier):
                 "layers_at_max": ["none", "unit", "cyc123", "pow2", "partial"],
                 "internal_taxa_max_leaves": 4, "internal_taxa_internal_prune_sets_only_at": 5, "containers_max_leaves": 4, "unifurcation_max_leaves": 4,
                 "unifurcation_all_orders_up_to": 4,
-                "node_extract_max_leaves": 5, "subsets": "all non-empty",
+                "node_extract_max_leaves": 5, "subsets": "all non-empty", "label_layer_max_leaves": 4,
+                "label_layer": {"variants": LABEL_VARIANTS, "placements": LABEL_PLACEMENTS, "is_case_sensitive": [False, True],
+                                "requests": "every non-empty subset of the distinct namespace labels", "apis": LABEL_APIS},
                 "large_representatives": [big_name(d) for d in big_descriptors()], "large_layer": LARGE}
     return {"max_leaves": 6, "layers": ["none", "unit", "cyc123", "pow2", "partial"],
             "layers_at_max": ["none", "pow2", "partial"],
             "internal_taxa_max_leaves": 5, "internal_taxa_internal_prune_sets_only_at": 6, "containers_max_leaves": 5, "unifurcation_max_leaves": 5,
             "unifurcation_all_orders_up_to": 4,
-            "node_extract_max_leaves": 6, "subsets": "all non-empty",
+            "node_extract_max_leaves": 6, "subsets": "all non-empty", "label_layer_max_leaves": 5,
+            "label_layer": {"variants": LABEL_VARIANTS, "placements": LABEL_PLACEMENTS, "is_case_sensitive": [False, True],
+                            "requests": "every non-empty subset of the distinct namespace labels", "apis": LABEL_APIS},
             "large_representatives": [big_name(d) for d in big_descriptors()], "large_layer": LARGE}
 
 
@@ -133,6 +145,11 @@ def chunks(tier):
         for lo in range(0, ns, step):
             for part in range(parts):
                 out.append({"kind": "unif", "n": n, "lo": lo, "hi": min(ns, lo + step), "tier": tier, "parts": parts, "part": part})
+    for n in range(1, b["label_layer_max_leaves"] + 1):
+        ns = len(U.shapes(n))
+        step = 4 if n >= 5 else 7
+        for lo in range(0, ns, step):
+            out.append({"kind": "labels", "n": n, "lo": lo, "hi": min(ns, lo + step), "tier": tier})
     for d in big_descriptors():
         for lens in LARGE["length_patterns"]:
             out.append({"kind": "big", "big": d, "lens": lens, "tier": tier})
@@ -965,6 +982,164 @@ def check_unif_group(case, ctx):
                 break
 
 
+# ---------------------------------------------------------------------------
+# namespaces in which one label names several Taxon objects
+
+LABEL_VARIANTS = ["duplicate-labels", "case-variant-labels"]
+LABEL_PLACEMENTS = ["both-on-tree", "extra-taxon-after", "extra-taxon-before"]
+LABEL_APIS = ["prune_taxa_with_labels", "retain_taxa_with_labels",
+              "extract_tree_with_taxa_labels", "extract_tree_without_taxa_labels"]
+
+
+def _label_setup(case):
+    """-> (leaf labels by leaf index, namespace labels in accession order, index of the off-tree taxon or None)"""
+    n = case["n"]
+    twin = "a" if case["variant"] == "duplicate-labels" else "A"
+    if case["placement"] == "both-on-tree":
+        leaf = (["a", twin] + ["b", "c", "d", "e"])[:n]
+        return leaf, list(leaf), None
+    leaf = ["a", "b", "c", "d", "e", "f"][:n]
+    if case["placement"] == "extra-taxon-after":
+        return leaf, leaf + [twin], n
+    return leaf, [twin] + leaf, 0
+
+
+def _label_match(label, req, cs):
+    if cs:
+        return label in req
+    return label.lower() in set(r.lower() for r in req)
+
+
+def _build_label_tree(case):
+    shape = tup(case["shape"])
+    leaf, nslabels, off = _label_setup(case)
+    sn = ref.mk(shape, lens=_lens("pow2"), labels=leaf, ilabels=_ilabel)
+    ns = dendropy.TaxonNamespace(is_case_sensitive=case["cs"])
+    taxa = [dendropy.Taxon(label=l) for l in nslabels]
+    for t in taxa:
+        ns.add_taxon(t)
+    on_tree = [t for i, t in enumerate(taxa) if i != off]
+
+    def rec(sh, snode):
+        nd = dendropy.Node()
+        if isinstance(sh, int):
+            nd.taxon = on_tree[sh]
+        else:
+            nd.label = snode[1]
+            for c, sc in zip(sh, snode[3]):
+                nd.add_child(rec(c, sc))
+        nd.edge.length = snode[2]
+        return nd
+    tree = dendropy.Tree(taxon_namespace=ns)
+    tree.seed_node = rec(shape, sn)
+    tree.is_rooted = True
+    if ref.snap_node(tree._seed_node) != sn:
+        raise AssertionError("harness: label-layer builder does not reproduce its snapshot")
+    return tree, sn, leaf, nslabels
+
+
+def _label_expectations(case, api, leaf, nslabels, req):
+    """acceptable survivor label sets for one call (more than one only where the docstrings leave
+    the matching rule open)"""
+    cs = case["cs"]
+    rule = frozenset(l for l in leaf if _label_match(l, req, cs))
+    exact = frozenset(l for l in leaf if l in req)
+    allv = frozenset(leaf)
+    if api == "prune_taxa_with_labels":          # "Taxon objects with labels given by labels": the namespace's rule
+        return [allv - rule]
+    if api == "retain_taxa_with_labels":
+        return [rule]
+    # the extraction wrappers say "labels matching those listed" without naming a case rule:
+    # exact matching and the namespace's rule are both accepted
+    alts = [exact, rule] if exact != rule else [rule]
+    if api == "extract_tree_without_taxa_labels":
+        alts = [allv - a for a in alts]
+    return alts
+
+
+def check_label_group(case, ctx):
+    """case: kind=labelgroup, n, shape, variant, placement, cs, req, suppress"""
+    req = list(case["req"])
+    suppress = case["suppress"]
+    variant = case["variant"]
+    tree0, sn, leaf, nslabels = _build_label_tree(case)
+    distinct = []
+    for l in nslabels:
+        if l not in distinct:
+            distinct.append(l)
+    complement = [l for l in distinct if not _label_match(l, req, case["cs"])]
+    calls = [(api, req) for api in LABEL_APIS]
+    if complement:
+        calls.append(("retain_taxa_with_labels", complement))      # retaining the complement == pruning req
+        calls.append(("prune_taxa_with_labels", complement))       # pruning the complement == retaining req
+    results = {}
+    for k, (api, arg) in enumerate(calls):
+        alts = _label_expectations(case, api, leaf, nslabels, arg)
+        if any(not a for a in alts):
+            ctx.count("skipped_would_remove_every_leaf")
+            continue
+        ctx.count("label_layer_calls")
+        sub = dict(case, api=api, arg=arg)
+        ctx.case(_key(dict(sub, kind="labelcall")), nontrivial=True)
+        tree, _, _, _ = _build_label_tree(case)
+        nodes = live_preorder(tree)
+        try:
+            if api.startswith("extract"):
+                res = getattr(tree, api)(arg, suppress_unifurcations=suppress)
+            else:
+                getattr(tree, api)(arg, suppress_unifurcations=suppress)
+                res = tree
+        except Exception as e:
+            ctx.violation("%s|%s|exception|%s" % (api, variant, type(e).__name__),
+                          "%s(%s, suppress_unifurcations=%r) on %s, namespace labels %s (is_case_sensitive=%r) raised %r" % (
+                              api, arg, suppress, ref.to_newick(sn), nslabels, case["cs"], e), case)
+            continue
+        probs = ref.wellformed(res)
+        if probs:
+            ctx.violation("%s|%s|malformed-tree" % (api, variant), "; ".join(probs), case)
+            continue
+        if api.startswith("extract"):
+            if [id(x) for x in live_preorder(tree)] != [id(x) for x in nodes] or ref.snap_node(tree._seed_node) != sn:
+                ctx.violation("%s|%s|source-altered" % (api, variant), "%s changed its source tree" % api, case)
+        got = ref.snap_node(res._seed_node)
+        results[(api, tuple(arg))] = got
+        feats = []
+        for keep in alts:
+            want = filtered(sn, keep, True, suppress)
+            other = filtered(sn, keep, True, not suppress)
+            f = classify(got, want, other)
+            feats.append((f, want))
+            if f is None:
+                break
+        if feats[-1][0] is not None:
+            f, want = feats[0]
+            if f == "flag":
+                f = "suppress_unifurcations-flag-not-honoured"
+            ctx.violation("%s|%s|%s" % (api, variant, f),
+                          "%s(%s, suppress_unifurcations=%r) on %s with namespace labels %s (is_case_sensitive=%r, %s) gave %s; the leaves "
+                          "whose taxon label matches are %s, so the induced subtree is %s" % (
+                              api, arg, suppress, ref.to_newick(sn), nslabels, case["cs"], case["placement"], ref.to_newick(got),
+                              sorted(l for l in leaf if _label_match(l, arg, case["cs"])), ref.to_newick(want)), case)
+    # mutual agreement (only where the docstrings fix one answer for both sides)
+    rule = frozenset(l for l in leaf if _label_match(l, req, case["cs"]))
+    exact = frozenset(l for l in leaf if l in req)
+    pairs = [(("prune_taxa_with_labels", tuple(req)), ("retain_taxa_with_labels", tuple(complement))),
+             (("retain_taxa_with_labels", tuple(req)), ("prune_taxa_with_labels", tuple(complement)))]
+    if rule == exact:
+        pairs += [(("extract_tree_without_taxa_labels", tuple(req)), ("prune_taxa_with_labels", tuple(req))),
+                  (("extract_tree_with_taxa_labels", tuple(req)), ("retain_taxa_with_labels", tuple(req)))]
+    else:
+        ctx.count("label_layer_extraction_agreement_not_demanded_case_rule_open")
+    for x, y in pairs:
+        if x in results and y in results:
+            ctx.count("label_layer_agreements_checked")
+            if not same_tree(results[x], results[y]):
+                ctx.violation("%s|%s|disagrees-with-%s" % (x[0], variant, y[0]),
+                              "on %s with namespace labels %s (is_case_sensitive=%r): %s(%s) gives %s but %s(%s) gives %s" % (
+                                  ref.to_newick(sn), nslabels, case["cs"], x[0], list(x[1]), ref.to_newick(results[x]),
+                                  y[0], list(y[1]), ref.to_newick(results[y])), case)
+
+
 class _Probe(object):
     """stand-in for Ctx that only records violations"""
 
@@ -1013,6 +1188,8 @@ def _check(case, ctx):
         check_node_extract(case, ctx)
     elif k == "unifgroup":
         check_unif_group(case, ctx)
+    elif k == "labelgroup":
+        check_label_group(case, ctx)
     else:
         raise ValueError("unknown case kind %r" % (k,))
 
@@ -1044,6 +1221,8 @@ def run_chunk(chunk, ctx):
         return run_node_extract(chunk, ctx)
     if kind == "big":
         return run_big(chunk, ctx)
+    if kind == "labels":
+        return run_labels(chunk, ctx)
     raise ValueError(kind)
 
 
@@ -1263,6 +1442,30 @@ def run_unif(chunk, ctx):
                         continue          # would remove every leaf
                     for suppress in (True, False):
                         _do(dict(base, kind="subtree", api="prune_subtree", node=i, suppress=suppress, upd=False), ctx, "unifurcation_layer_calls", nt)
+    return None
+
+
+def run_labels(chunk, ctx):
+    """one label naming several Taxon objects: duplicates, and case variants under both case rules"""
+    n = chunk["n"]
+    shapes = U.shapes(n)
+    for si in range(chunk["lo"], chunk["hi"]):
+        shape = shapes[si]
+        for variant in LABEL_VARIANTS:
+            for placement in LABEL_PLACEMENTS:
+                if placement == "both-on-tree" and n < 2:
+                    continue
+                for cs in (False, True):
+                    base = {"kind": "labelgroup", "n": n, "shape": shape, "variant": variant, "placement": placement, "cs": cs}
+                    leaf, nslabels, off = _label_setup(base)
+                    distinct = []
+                    for l in nslabels:
+                        if l not in distinct:
+                            distinct.append(l)
+                    ctx.count("label_layer_source_trees")
+                    for req in nonempty_subsets(distinct):
+                        for suppress in (True, False):
+                            check_label_group(dict(base, req=list(req), suppress=suppress), ctx)
     return None
 
 
